@@ -969,7 +969,8 @@ class LfSystem:
         cls = self._cls(op)
 
         def fail(what, got, want):
-            acc.fail(f"likelihood function: {what} [after {cls}]", case, {"got": got, "want": want})
+            # a state is judged, not the step that led to it: the signature names the observable only
+            acc.fail(f"likelihood function: {what}", case, {"got": got, "want": want, "last_operation": cls})
 
         with warnings.catch_warnings():
             warnings.simplefilter("ignore")
